@@ -31,7 +31,9 @@ ROLES = {
            ("Log", "LineList", {"x": "9052", "y": "9051 IsolateDestAddr", "z": "unix:/tmp/s.sock", "d1": "9050", "DEFAULT": "DEFAULT"})],
     # (index 2 of l1: the texts of l2's table, so that a value copied from one list option to the other keeps its tokens)
     "l2": [("SocksPort", "PortLines", {"x": "9052", "y": "9051 IsolateDestAddr", "z": "unix:/tmp/s.sock", "d1": "9050",
-                                       "DEFAULT": "DEFAULT"})],
+                                       "DEFAULT": "DEFAULT"}),
+           # a port option Tor has no built-in default for: no config/defaults entry, __TransPort unset
+           ("TransPort", "PortLines", {"x": "9040", "y": "9041 IsolateDestAddr", "z": "127.0.0.1:9042", "DEFAULT": "DEFAULT"})],
 }
 
 
@@ -115,7 +117,8 @@ class Run(object):
                 names += ["%s Dependent" % name, "%sLines Dependent" % name, "__%s Dependent" % name]
             else:
                 names.append("%s %s" % (name, typ))
-            defaults.append("%s %s" % (name, conc["dflt"] if "dflt" in conc else conc["d1"]))
+            if "dflt" in conc or "d1" in conc:
+                defaults.append("%s %s" % (name, conc["dflt"] if "dflt" in conc else conc["d1"]))
         self.sim.info["config/names"] = names
         self.sim.info["config/defaults"] = defaults
         self.sim.info["onions/current"] = ""
